@@ -668,28 +668,39 @@ func checkC12(c *Ctx) *core.Result {
 		r.Fail("K5", core.QualName(tokenize), "virtual-quote call", p.Pos(tokenize.Pos()), "tokenize no longer calls the string lexer for the virtual opening quote")
 	} else {
 		args := vq.Common().Args
-		// receiver, s, length, pos, offset, delimiter
-		var ints []int64
+		// the roles of the lexer's integer parameters are read off its call sites
+		posP, offP, lenP, rwhy := strCoreRoles(p, a, strCore)
 		var delim ssa.Value
-		inputOK, lenOK := false, false
-		for _, arg := range args {
-			if k, ok := ssax.ConstInt(arg); ok {
-				ints = append(ints, k)
-			}
+		inputOK, lenOK := false, lenP == nil
+		ints := map[string]string{}
+		for i, arg := range args {
 			if cl, ok := arg.(*ssa.Call); ok && cl.Common().StaticCallee() == f2d {
 				delim = cl
 			}
 			if a.loadsField(arg, "sql.state.input") {
 				inputOK = true
 			}
-			if a.loadsField(arg, "sql.state.length") || isLenOfField(a, arg, "sql.state.input") {
-				lenOK = true
+			if i >= len(strCore.Params) {
+				continue
+			}
+			switch prm := strCore.Params[i]; {
+			case prm == lenP && lenP != nil:
+				lenOK = a.loadsField(arg, "sql.state.length") || isLenOfField(a, arg, "sql.state.input")
+			case prm == posP && posP != nil, prm == offP && offP != nil:
+				if k, ok := ssax.ConstInt(arg); ok {
+					ints[prm.Name()] = fmt.Sprint(k)
+				} else {
+					ints[prm.Name()] = "non-constant"
+				}
 			}
 		}
-		if len(ints) == 2 && ints[0] == 0 && ints[1] == 0 && inputOK && lenOK {
+		switch {
+		case rwhy != "":
+			r.Fail("K5", core.QualName(tokenize), "virtual-quote call arguments", p.Pos(vq.Pos()), "roles of the string lexer's integer parameters: "+rwhy+" (undecided)")
+		case ints[posP.Name()] == "0" && ints[offP.Name()] == "0" && inputOK && lenOK:
 			r.OK("K5", core.QualName(tokenize), "virtual-quote call (pos,offset)=(0,0)", p.Pos(vq.Pos()), "whole input, no byte skipped")
-		} else {
-			r.Fail("K5", core.QualName(tokenize), "virtual-quote call arguments", p.Pos(vq.Pos()), fmt.Sprintf("the virtual-quote string lexer call must scan the whole input from (pos,offset)=(0,0); got constants %v input=%v length=%v", ints, inputOK, lenOK))
+		default:
+			r.Fail("K5", core.QualName(tokenize), "virtual-quote call arguments", p.Pos(vq.Pos()), fmt.Sprintf("the virtual-quote string lexer call must scan the whole input from (pos,offset)=(0,0); got %s=%s %s=%s input=%v length=%v", posP.Name(), ints[posP.Name()], offP.Name(), ints[offP.Name()], inputOK, lenOK))
 		}
 		if delim == nil {
 			r.Fail("K5", core.QualName(tokenize), "virtual-quote delimiter", p.Pos(vq.Pos()), "delimiter is not flag2Delimiter(flags)")
@@ -720,7 +731,7 @@ func checkC12(c *Ctx) *core.Result {
 		}
 	}
 	// ---------------- K6: content-start uniformity of the string lexer
-	checkContentStartUniform(p, r, strCore)
+	checkContentStartUniform(p, a, r, strCore)
 
 	// flag2Delimiter by SCCP
 	if len(f2d.Params) == 1 {
@@ -755,6 +766,13 @@ func isInputByte(a *Anchors, v ssa.Value) bool {
 		return a.loadsField(x.X, "sql.state.input")
 	case *ssa.Lookup:
 		return a.loadsField(x.X, "sql.state.input")
+	case *ssa.Call:
+		// an accessor such as s.peekAt(k)
+		if f := x.Common().StaticCallee(); f != nil {
+			if ret, ok := ssax.PureExprFunc(f); ok {
+				return isInputByte(a, ret)
+			}
+		}
 	}
 	return false
 }
@@ -837,19 +855,12 @@ func linOf(v ssa.Value, memo map[ssa.Value]*linForm, depth int) *linForm {
 // constant that decides real vs. simulated opening quote.  This is a
 // necessary condition of "reading x inside a quote equals reading quote+x
 // as-is": both readings differ exactly in (pos,offset) = (0,0) vs (0,1).
-func checkContentStartUniform(p *core.Program, r *core.Result, fn *ssa.Function) {
-	var posP, offP *ssa.Parameter
-	var ints []*ssa.Parameter
-	for _, prm := range fn.Params {
-		if b, ok := prm.Type().Underlying().(*types.Basic); ok && b.Kind() == types.Int {
-			ints = append(ints, prm)
-		}
-	}
-	if len(ints) != 3 {
-		anchorFail(r, "sql.stringCore int parameters", fmt.Sprintf("expected (length, pos, offset), found %d int parameters", len(ints)))
+func checkContentStartUniform(p *core.Program, a *Anchors, r *core.Result, fn *ssa.Function) {
+	posP, offP, _, why := strCoreRoles(p, a, fn)
+	if why != "" {
+		anchorFail(r, "sql.stringCore int parameters", why)
 		return
 	}
-	posP, offP = ints[1], ints[2]
 	memo := map[ssa.Value]*linForm{}
 	n := 0
 	consume := func(v ssa.Value, ins ssa.Instruction, how string) {
@@ -973,4 +984,64 @@ func lookupTestOf(tr *ssax.Trace, cond ssa.Value, cfr *ssax.TFrame, lookup *ssa.
 		return call, false, true
 	}
 	return nil, false, false
+}
+
+// strCoreRoles reads the roles of the string lexer's integer parameters off its
+// call sites: `pos` receives the state's cursor at a real-quote site, `offset`
+// receives constants only (some of them positive: the opening quote(s) that
+// are skipped), the optional `length` receives the input length at every site.
+func strCoreRoles(p *core.Program, a *Anchors, fn *ssa.Function) (posP, offP, lenP *ssa.Parameter, why string) {
+	type kinds struct{ cursor, constOnly, positive, length, n int }
+	ks := map[*ssa.Parameter]*kinds{}
+	for _, prm := range fn.Params {
+		if b, ok := prm.Type().Underlying().(*types.Basic); ok && b.Kind() == types.Int {
+			ks[prm] = &kinds{}
+		}
+	}
+	for _, caller := range p.SourceFuncs(nil) {
+		for _, ci := range ssax.Calls(caller) {
+			if ci.Common().StaticCallee() != fn {
+				continue
+			}
+			for i, arg := range ci.Common().Args {
+				if i >= len(fn.Params) || ks[fn.Params[i]] == nil {
+					continue
+				}
+				k := ks[fn.Params[i]]
+				k.n++
+				if a.loadsField(arg, "sql.state.pos") {
+					k.cursor++
+				}
+				if c, ok := ssax.ConstInt(arg); ok {
+					k.constOnly++
+					if c > 0 {
+						k.positive++
+					}
+				}
+				if a.loadsField(arg, "sql.state.length") || isLenOfField(a, arg, "sql.state.input") {
+					k.length++
+				}
+			}
+		}
+	}
+	for _, prm := range fn.Params {
+		k := ks[prm]
+		if k == nil || k.n == 0 {
+			continue
+		}
+		switch {
+		case k.length == k.n && lenP == nil:
+			lenP = prm
+		case k.cursor > 0 && posP == nil:
+			posP = prm
+		case k.constOnly == k.n && k.positive > 0 && offP == nil:
+			offP = prm
+		default:
+			return nil, nil, nil, fmt.Sprintf("integer parameter %s of %s is neither the cursor, a constant offset nor the input length at its call sites", prm.Name(), fn.Name())
+		}
+	}
+	if posP == nil || offP == nil {
+		return nil, nil, nil, fmt.Sprintf("%s: no (pos, offset) parameter pair recognised at its call sites", fn.Name())
+	}
+	return posP, offP, lenP, ""
 }
